@@ -376,9 +376,24 @@ func (x *Exec) concretize(t *Term, what string) int64 {
 		return true
 	}
 	if !enumerate(false) {
-		x.R.inconclusive(fmt.Sprintf("%s: more than %d feasible values for %s (case-split bound); only the values in [-2,%d] were explored", x.harness, x.casemax, what, x.casemax-3))
+		// for an index (bounded by the indexed table anyway) also keep some of the values the solver offered
+		// on its own: they tend to lie far from zero, where the small window does not look
+		var extra []int64
+		if strings.HasPrefix(what, "index") {
+			extra = append(extra, vals[:12]...)
+		}
+		x.R.inconclusive(fmt.Sprintf("%s: more than %d feasible values for %s (case-split bound); only the values in [-2,%d]%s were explored", x.harness, x.casemax, what, x.casemax-3, map[bool]string{true: " and 12 solver-chosen ones", false: ""}[len(extra) > 0]))
 		if !enumerate(true) {
 			panic(unsupported{fmt.Sprintf("more than %d feasible values for %s (case-split bound)", x.casemax, what)})
+		}
+		for _, e := range extra {
+			dup := false
+			for _, v := range vals {
+				dup = dup || v == e
+			}
+			if !dup {
+				vals = append(vals, e)
+			}
 		}
 	}
 	x.sol.Pop(1)
